@@ -120,7 +120,16 @@ def explore(ctx, escalate=False, hint=None):
     rule = ('%d well-ordered writer programs as in C02; the bytes written by the real writer are read by the real '
             'reader, by the Lean reader model and compared with the records the specification serializer predicts '
             '(id, level, logical line, options, content); distinct by canonical record list' % n)
-    return base.explore_generic(ctx, Spec(ctx.tables), n, rule, chunk=1000)
+    res = base.explore_generic(ctx, Spec(ctx.tables), n, rule, chunk=1000)
+    # the Lean model of json.dumps / json.loads (closed whole-run theorem, Properties/C01Closed.lean)
+    from props import leanjson
+    r2 = base.explore_generic(ctx, leanjson.LeanJson(), 40000 if ctx.run.tier == 'thorough' else (8000 if escalate else 2500),
+                              'Lean json model (Model/JsonText.lean) vs CPython: dumps(indent=4, sort_keys) of random objects; loads of '
+                              'CPython renderings under many layouts, an edge-text catalogue and random mutations', chunk=4000)
+    res['evaluations'] += r2['evaluations']
+    res['disagreements'] += r2['disagreements']
+    res['distribution'].update(r2['distribution'])
+    return res
 
 
 def classify(v):
